@@ -105,30 +105,34 @@ impl SanitizerConfig {
 
     /// Clean the given HTML with this sanitizer.
     pub(crate) fn clean(&self, html: &Html) {
-        for child in html.children() {
-            self.clean_node(child, 0);
-        }
-    }
+        // Walk the tree with an explicit stack rather than with recursive calls, so the nesting
+        // level of the HTML is not limited by the size of the call stack.
+        let mut stack = html.children().map(|child| (child, 0)).collect::<Vec<_>>();
+        stack.reverse();
 
-    fn clean_node(&self, node: NodeRef, depth: u32) {
-        let node = self.apply_replacements(node);
+        while let Some((node, depth)) = stack.pop() {
+            let node = self.apply_replacements(node);
+            let action = self.node_action(&node, depth);
 
-        let action = self.node_action(&node, depth);
+            if action == NodeAction::Remove {
+                node.detach();
+                continue;
+            }
 
-        if action != NodeAction::Remove {
-            for child in node.children() {
-                if action == NodeAction::Ignore {
+            let children = node.children().collect::<Vec<_>>();
+
+            if action == NodeAction::Ignore {
+                // The children take the place of the node.
+                for child in &children {
                     child.insert_before_sibling(&node);
                 }
 
-                self.clean_node(child, depth + 1);
+                node.detach();
+            } else if let Some(data) = node.as_element() {
+                self.clean_element_attributes(data);
             }
-        }
 
-        if matches!(action, NodeAction::Ignore | NodeAction::Remove) {
-            node.detach();
-        } else if let Some(data) = node.as_element() {
-            self.clean_element_attributes(data);
+            stack.extend(children.into_iter().rev().map(|child| (child, depth + 1)));
         }
     }
 
